@@ -32,6 +32,16 @@ def _part_labels(cell):
 DEBUG_DEFAULT = [False]
 
 
+def _escaped(text, e, debug):
+    from .law import Violation
+    try:
+        what = '%s: %s' % (type(e).__name__, e)
+    except Exception:
+        what = type(e).__name__
+    return Violation('parse(%r)%s raised %s instead of returning a record: no outcome at all, where this property expects a particular one' % (text[:200], ' (debug on)' if debug else '', what[:200]),
+                     'raised ' + type(e).__name__, 'a result/error record')
+
+
 class Env(object):
     """A parser plus the host side: variables, cell/range tables, custom functions, event log."""
 
@@ -80,11 +90,16 @@ class Env(object):
         self.log.append(('func', name, len(args)))
 
     def parse(self, text):
-        if self.P.debug:
-            buf = io.StringIO()
-            with contextlib.redirect_stderr(buf):
-                return self.P.parse(text)
-        return self.P.parse(text)
+        # parse() is documented to return a record whatever happens (property C01); if it raises instead, the law at hand reports it against its own
+        # formula (whatever outcome it expected, it did not get it) instead of dying with a harness error
+        try:
+            if self.P.debug:
+                buf = io.StringIO()
+                with contextlib.redirect_stderr(buf):
+                    return self.P.parse(text)
+            return self.P.parse(text)
+        except Exception as e:
+            raise _escaped(text, e, self.P.debug)
 
 
 def ev(text, vars=None, cells=None, ranges=None, funcs=None, debug=None):
@@ -107,10 +122,13 @@ def plain_parser():
 
 def pev(text):
     P = plain_parser()
-    if P.debug:
-        with contextlib.redirect_stderr(io.StringIO()):
-            return P.parse(text)
-    return P.parse(text)
+    try:
+        if P.debug:
+            with contextlib.redirect_stderr(io.StringIO()):
+                return P.parse(text)
+        return P.parse(text)
+    except Exception as e:
+        raise _escaped(text, e, P.debug)
 
 
 # ---------------------------------------------------------------- literals
